@@ -1,0 +1,13 @@
+//go:build verif
+
+package virtual
+
+// VerifEntries returns a copy of the locks stored in the set, in list
+// order. It is only used by external verification tooling.
+func (ls *ByteRangeLockSet[Owner]) VerifEntries() []ByteRangeLock[Owner] {
+	var entries []ByteRangeLock[Owner]
+	for le := ls.list.next; le != &ls.list; le = le.next {
+		entries = append(entries, le.lock)
+	}
+	return entries
+}
